@@ -333,8 +333,200 @@ class Program:
                 )
         for m in self.modules.values():
             self._index_module(m)
+        self._expand_decorators()
         for c in self.classes.values():
             self._infer_attrs(c)
+
+    # ------------------------------------------------------------------ decorators of the repository
+    @staticmethod
+    def _decorator_shape(d: FuncInfo) -> tuple[list[ast.arg] | None, str, ast.AST] | None:
+        """(factory parameters | None, name of the decorated-function parameter, the wrapper `def`) when `d` is a plain
+        decorator  `def d(fn): [@wraps(fn)] def inner(...): ...; return inner`  or a decorator factory
+        `def d(p, ...): def decorate(fn): <plain shape>; return decorate`  - nothing else in the bodies"""
+
+        def plain(fn_node: ast.AST) -> tuple[str, ast.AST] | None:
+            body = [st for st in fn_node.body if not (isinstance(st, ast.Expr) and isinstance(st.value, ast.Constant))]
+            a = fn_node.args
+            if len(body) != 2 or len(a.args) != 1 or a.vararg or a.kwarg or a.kwonlyargs or a.posonlyargs:
+                return None
+            inner, ret = body
+            if not (isinstance(inner, (ast.FunctionDef, ast.AsyncFunctionDef)) and isinstance(ret, ast.Return) and isinstance(ret.value, ast.Name) and ret.value.id == inner.name):
+                return None
+            for dec in inner.decorator_list:
+                if not (isinstance(dec, ast.Call) and ast.unparse(dec.func).split(".")[-1] == "wraps"):
+                    return None
+            return a.args[0].arg, inner
+
+        node = d.node
+        if not isinstance(node, ast.FunctionDef):
+            return None
+        p = plain(node)
+        if p is not None:
+            return None, p[0], p[1]
+        body = [st for st in node.body if not (isinstance(st, ast.Expr) and isinstance(st.value, ast.Constant))]
+        if len(body) == 2 and isinstance(body[0], ast.FunctionDef) and isinstance(body[1], ast.Return) and isinstance(body[1].value, ast.Name) and body[1].value.id == body[0].name and not node.args.vararg and not node.args.kwarg:
+            p = plain(body[0])
+            if p is not None:
+                return list(node.args.posonlyargs) + list(node.args.args) + list(node.args.kwonlyargs), p[0], p[1]
+        return None
+
+    def _expand_decorators(self) -> None:
+        """A function or method of the library decorated with a decorator *of the library* is analysed as what the
+        decoration makes of it: the decorator's wrapper with the decorated function substituted for its parameter
+        (`@optional_classifier("x") def f(exc, mod)` -> `def f(exc): try: mod = import_module("x") ...; return
+        f.__wrapped__(exc, mod)`).  The original body stays available as `<name>.__wrapped__`.  Only the plain
+        shapes of `_decorator_shape` are expanded; anything else is left as written (an unknown decorator)."""
+        import copy
+
+        self.expanded_decorators: dict[str, str] = {}
+        sites: list[tuple[Module, ClassInfo | None, dict, FuncInfo]] = []
+        for m in self.modules.values():
+            for fi in list(m.functions.values()):
+                sites.append((m, None, m.functions, fi))
+            for ci in m.classes.values():
+                for fi in list(ci.methods.values()):
+                    sites.append((m, ci, ci.methods, fi))
+        for m, ci, table, fi in sites:
+            node = fi.node
+            decs = getattr(node, "decorator_list", [])
+            if len(decs) != 1:
+                continue
+            dexpr = decs[0]
+            dname = dexpr.func if isinstance(dexpr, ast.Call) else dexpr
+            if not isinstance(dname, ast.Name):
+                continue
+            k, dfi = self.lookup_name(dname.id, None, m)
+            if k != "func" or dfi is fi:
+                continue
+            shape = self._decorator_shape(dfi)
+            if shape is None:
+                continue
+            fparams, fn_param, inner = shape
+            if (fparams is None) != (not isinstance(dexpr, ast.Call)):
+                continue
+            if isinstance(node, ast.AsyncFunctionDef) != isinstance(inner, ast.AsyncFunctionDef):
+                continue
+            dm = dfi.module
+            # ---- factory arguments
+            subst: dict[str, ast.expr] = {}
+            ok = True
+            if fparams is not None:
+                call = dexpr
+                pos = [a.arg for a in list(dfi.node.args.posonlyargs) + list(dfi.node.args.args)]
+                given: dict[str, ast.expr] = {}
+                for i, a in enumerate(call.args):
+                    if isinstance(a, ast.Starred) or i >= len(pos):
+                        ok = False
+                        break
+                    given[pos[i]] = a
+                for kw in call.keywords:
+                    if kw.arg is None:
+                        ok = False
+                        break
+                    given[kw.arg] = kw.value
+                defaults = dfi.param_defaults()
+                for a in fparams:
+                    if a.arg in given:
+                        e = given[a.arg]
+                        if isinstance(e, ast.Constant):
+                            subst[a.arg] = e
+                        elif isinstance(e, ast.Name):
+                            alias = f"__deco_{m.name.replace('.', '_')}_{e.id}"
+                            dm.imports[alias] = (m.name, e.id)  # what the name means where the decorator is applied
+                            subst[a.arg] = ast.Name(id=alias, ctx=ast.Load())
+                        else:
+                            ok = False
+                    elif a.arg in defaults:
+                        subst[a.arg] = defaults[a.arg]  # evaluated in the decorator's own module: resolves there
+                    else:
+                        ok = False
+            if not ok:
+                continue
+            # ---- the wrapper, specialised
+            new = copy.deepcopy(inner)
+            new.name = node.name
+            new.decorator_list = []
+            wrapped_name = f"{node.name}__wrapped__"
+            ia = new.args
+            is_method = ci is not None and not fi.is_staticmethod
+            passthrough = ia.vararg is not None and ia.kwarg is not None and not ia.kwonlyargs and len(ia.posonlyargs) + len(ia.args) == (1 if is_method else 0)
+            self_name = (ia.args[0].arg if ia.args else None) if is_method else None
+            oa = node.args
+            if passthrough:
+                va, kwa = ia.vararg.arg, ia.kwarg.arg
+                new.args = copy.deepcopy(oa)
+                if is_method and oa.args:
+                    new.args.args[0].arg = self_name or oa.args[0].arg
+            if is_method:
+                self_name = new.args.args[0].arg if new.args.args else None
+                if self_name is None:
+                    continue
+            if is_method:
+                orig_ref: ast.expr = ast.Attribute(value=ast.Name(id=self_name, ctx=ast.Load()), attr=wrapped_name, ctx=ast.Load())
+            else:
+                alias = f"__wrapped_{m.name.replace('.', '_')}_{node.name}"
+                dm.imports[alias] = (m.name, wrapped_name)
+                orig_ref = ast.Name(id=alias, ctx=ast.Load())
+            bad = [False]
+
+            class Sub(ast.NodeTransformer):
+                def visit_Call(self, c: ast.Call) -> ast.AST:
+                    self.generic_visit(c)
+                    if isinstance(c.func, ast.Name) and c.func.id == "__DECORATED__":
+                        args = list(c.args)
+                        if is_method:
+                            if not (args and isinstance(args[0], ast.Name) and args[0].id == self_name):
+                                bad[0] = True
+                                return c
+                            args = args[1:]
+                        if passthrough:
+                            star = [a for a in args if isinstance(a, ast.Starred)]
+                            dstar = [k for k in c.keywords if k.arg is None]
+                            if len(star) != 1 or len(dstar) != 1 or len(args) != 1 or len(c.keywords) != 1:
+                                bad[0] = True
+                                return c
+                            own = list(oa.posonlyargs) + list(oa.args)
+                            if is_method:
+                                own = own[1:]
+                            args = [ast.Name(id=a.arg, ctx=ast.Load()) for a in own]
+                            if oa.vararg:
+                                args.append(ast.Starred(value=ast.Name(id=oa.vararg.arg, ctx=ast.Load()), ctx=ast.Load()))
+                            kws = [ast.keyword(arg=a.arg, value=ast.Name(id=a.arg, ctx=ast.Load())) for a in oa.kwonlyargs]
+                            if oa.kwarg:
+                                kws.append(ast.keyword(arg=None, value=ast.Name(id=oa.kwarg.arg, ctx=ast.Load())))
+                            c.keywords = kws
+                        c.args = args
+                        c.func = copy.deepcopy(orig_ref)
+                    return c
+
+                def visit_Name(self, n: ast.Name) -> ast.AST:
+                    if isinstance(n.ctx, ast.Load):
+                        if n.id == fn_param:
+                            return ast.copy_location(ast.Name(id="__DECORATED__", ctx=ast.Load()), n)
+                        if n.id in subst:
+                            return ast.copy_location(copy.deepcopy(subst[n.id]), n)
+                    elif n.id == fn_param or n.id in subst:
+                        bad[0] = True
+                    return n
+
+            new = Sub().visit(new)
+            if bad[0] or any(isinstance(n, ast.Name) and n.id == "__DECORATED__" for n in ast.walk(new)):
+                continue  # the decorated function escapes (stored, passed on): not a plain wrapper
+            if passthrough and any(isinstance(n, ast.Name) and n.id in (va, kwa) for n in ast.walk(new) if not (isinstance(n, ast.Name) and n.id in {a.arg for a in ast.walk(new.args) if isinstance(a, ast.arg)})):
+                continue
+            ast.fix_missing_locations(new)
+            # ---- register: the original under <name>__wrapped__, the specialised wrapper under the public name
+            qual = fi.qual
+            node.decorator_list = []
+            node.name = wrapped_name
+            del self.funcs[qual]
+            wq = f"{qual}.__wrapped__"
+            fi.qual = wq
+            self.funcs[wq] = fi
+            table.pop(new.name, None)
+            table[wrapped_name] = fi
+            self._index_func(dm, new, qual, ci, None, table)
+            self.expanded_decorators[qual] = dfi.qual
 
     def _abs_import(self, m: Module, level: int, module: str | None) -> str:
         if level == 0:
